@@ -291,6 +291,33 @@ def make_utf8(chk, rng, idx):
     return sy
 
 
+# characters that are ordinary cell content for a csv reader fed by a text file (records end at LF / CR / CRLF only) but
+# that str.splitlines(), some editors and some "read everything, then split" idioms take for line ends
+SEPARATORS = ['\x0b', '\x0c', '\x1c', '\x1d', '\x1e', '\x85', '\u2028', '\u2029']
+
+
+def make_separators(chk, rng, idx, sep):
+    """A well-formed rural EPW whose free text holds one such character: in an unquoted COMMENTS cell, inside the
+    quoted city name, in a data-source flag cell of a row outside the window and of a row inside it."""
+    sy = make_synth(chk, rng, idx, 'ok')
+    sy.kind = 'utf8'                     # judged by the oracle only (the line protocol of the model is ASCII)
+    sy.sep = sep
+    sy.hdr[0][1] = 'Singapore, Changi' + sep + 'Airport'
+    sy.hdr[6][1] = ' -- see report p.3' + sep + 'Appendix B'
+    if rng.random() < 0.5:
+        sy.hdr[5].append('rev' + sep)
+    for k in sorted(set([0, len(sy.rows) - 1, min(len(sy.rows) - 1, sy.s + max(sy.n, 1) - 1), rng.randrange(len(sy.rows))])):
+        r = sy.rows[k]
+        if len(r) > 22:
+            r[5] = '?9' + sep + '?9'
+    text = raw_text(rng, sy.hdr + sy.rows, rng.choice(['\n', '\r\n']), last_eol=True)
+    with open(sy.path, 'w', newline='', encoding='utf-8') as f:
+        f.write(text)
+    sy.text_lf = text.replace('\r\n', '\n')
+    sy.hash = hashlib.sha256(open(sy.path, 'rb').read()).hexdigest()
+    return sy
+
+
 def run_synth(UWG, sy):
     """Drive the real write_epw. Returns (protocol line, impl answer, out_path or None, written values)."""
     if sy.default_out:
@@ -423,6 +450,168 @@ def run_e2e(chk, UWG, idx, cfg):
     case = {'replay_kind': 'e2e', 'rewritten_with_precisions': '0..20 (sample)', 'epw_path': epw, 'uwg_path': uwgf, 'epw': os.path.basename(epw), 'month': mo, 'day': dy, 'nday': nd, 'dtsim': dt,
             'precision': prec, 'window_start_row': s}
     return line, ans, msg, case
+
+
+# ----------------------------------------------------------------------------- circumstances (round 4)
+def circumstances(chk):
+    """The property under the six circumstances of harness/generic.py (applied through u1_util): the SAME real
+    generate; simulate; write_epw on a copy of a shipped rural file, run plainly / while every reachable object is
+    rendered at every stage / with DEBUG logging / in a fresh `python -O` interpreter / through both command-line
+    routes (also `python -O -m uwg`) / interleaved with another model that morphs the same rural file / from the
+    caller's own dictionary which the caller goes on editing. Every written file is judged by the T2/T3 oracle and
+    must be byte-identical to the plain one. Second part: every way of naming the rural file as the output, in a plain
+    and in a `python -O` interpreter and through the command line: the rural bytes must not change and the verdict
+    (refused / exit status) must be the same in both interpreter modes."""
+    import generic as G
+    import u1_util as U1
+    rng = chk.rng
+    thorough = chk.tier == 'thorough'
+    work = os.path.join(chk.work(), 'circ')
+    os.makedirs(work)
+    src_epw = os.path.join(core.REPO, 'resources', 'SGP_Singapore.486980_IWEC.epw')
+    scen = [(rng.choice([(3, 5), (6, 29), (10, 14), (1, 1), (12, 31)]), 300)]
+    if thorough:
+        scen += [((2, 28), 150), ((7, 4), 600), (rng.choice([(4, 30), (9, 9)]), 200)]
+    n = bad = 0
+    branches = {}
+    for si, ((mo, dy), dt) in enumerate(scen):
+        d = os.path.join(work, 's%d' % si)
+        os.makedirs(d)
+        rural = os.path.join(d, 'rural_SGP.epw')
+        shutil.copy(src_epw, rural)
+        h = hashlib.sha256(open(rural, 'rb').read()).hexdigest()
+        sp = U1.spec(rural, attrs=[('month', mo), ('day', dy), ('nday', 1), ('dtsim', dt)],
+                     outdir=os.path.join(d, 'out'), outname='morphed.epw')
+        other = U1.spec(rural, attrs=[('month', (mo % 12) + 1), ('day', 10), ('nday', 1), ('dtsim', 300),
+                                      ('bldheight', 30), ('sensanth', 9)], outdir=os.path.join(d, 'out'),
+                        outname='other.epw', label='another model morphing the SAME rural file: other window, other canyon')
+        out = U1.run_circumstances(d, sp, other, tag='s%d' % si)
+        plain = out[0][1]
+        s = 24 * U1.doy0(mo, dy)
+        for nm, r, msgs in out:
+            n += 1
+            branches[nm] = branches.get(nm, 0) + 1
+            msg = msgs[0] if msgs else None
+            if not msg and r.error:
+                msg = 'the run did not complete (%s): %s' % (r.stage, r.error)
+            if not msg and plain.records:
+                recs = r.records if r.records is not None else plain.records
+                vals = [(float(x['u'][0]) - 273.15, float(x['u'][3]), float(x['u'][2]), float(x['w'][1])) for x in recs]
+                msg = oracle_file(rural, r.file, s, vals, 1, h)
+                if not msg:
+                    ap = U1.against_plain(U1.reference_for(out, nm), r)
+                    msg = ap and '%s: %r instead of %r' % ap
+            if msg:
+                bad += 1
+                if bad <= 3:
+                    chk.violation('impl-violation', 'T2/T3 oracle / byte-equality with the plain run under a circumstance '
+                                  'that is not an input (%s)' % nm,
+                                  case={'circumstance': nm, 'route': r.route, 'month': mo, 'day': dy, 'nday': 1, 'dtsim': dt,
+                                        'epw': 'copy of resources/SGP_Singapore.486980_IWEC.epw', 'epw_precision': 1,
+                                        'how': 'harness/u1_util.py run_circumstances(spec)'},
+                                  observed=msg, expected='the rural file with fields 6,7,8,21 of the 24 window rows '
+                                                         'rewritten - the same bytes as the plain library run')
+    chk.direct('T2/T3-oracle under circumstances (observers, DEBUG, python -O, command line, neighbours, caller data)',
+               n, n,
+               'real generate; simulate; write_epw of one parameter set on a copy of the shipped Singapore file (random '
+               'start, 1 day; thorough: 4 starts / time steps) run (1) plainly, (2) while repr / str / ToString of the '
+               'model and of EVERY reachable uwg object is taken after construction, after generate(), every 41st step of '
+               'simulate(), after simulate() and after write_epw(), (3) with DEBUG logging on the root and uwg loggers, '
+               '(4) in a fresh `python -O` interpreter, (5) through `python -m uwg simulate model` (JSON of the real '
+               'to_dict, also with every whole number typed without a decimal point) and `simulate param` (.uwg file), also `python -O -m uwg`, (6) interleaved with another model that '
+               'morphs the SAME rural file (generated / simulated / written before, between and after), (7) from the '
+               'caller\'s own dictionary (JSON round trip), which must come back unchanged from from_dict and is scribbled '
+               'over after generate(); records kept from the run must not change when the object is run again. Each '
+               'written file: T2/T3 oracle against the rural copy (hashed before / after) and byte-equality with (1)',
+               mismatches=bad, branches=branches)
+
+    # ---- every way of naming the rural file as the output x interpreter mode x route --------------------------------
+    small = U1.small_epw(src_epw, os.path.join(work, 'small.epw'))
+    hows = list(U1.PROTECTED_HOWS)
+    full_hows = rng.sample(hows, 2 if not thorough else 5)
+    ptext = U1.param_text(U1.spec(src_epw, attrs=[('month', 1), ('day', 1), ('nday', 1), ('dtsim', 300)]))
+    puwg = os.path.join(work, 'one_day.uwg')
+    with open(puwg, 'w', newline='') as f:
+        f.write(ptext)
+
+    def cli_case(how, opt):
+        dd = os.path.join(work, 'cli_%s_%s' % (how, 'O' if opt else 'plain'))
+        os.makedirs(dd)
+        rural = os.path.join(dd, 'rural.epw')
+        shutil.copy(src_epw, rural)
+        h0 = U1.fhash(rural)
+        if how == 'explicit-dir':
+            extra = ['--new-epw-dir', dd, '--new-epw-name', 'rural.epw']
+        elif how == 'default-dir':
+            extra = ['--new-epw-name', 'rural.epw']
+        else:
+            os.makedirs(os.path.join(dd, 'out'))
+            if how == 'hardlinked-name':
+                os.link(rural, os.path.join(dd, 'out', 'morphed.epw'))
+            else:
+                os.symlink(rural, os.path.join(dd, 'out', 'morphed.epw'))
+            extra = ['--new-epw-dir', os.path.join(dd, 'out'), '--new-epw-name', 'morphed.epw']
+        rc, so, se = G.cli(['simulate', 'param', puwg, rural] + extra, optimize=opt)
+        return {'how': 'command line, ' + how, 'raised': None if rc == 0 else 'exit status %d' % rc,
+                'rural_unchanged': U1.fhash(rural) == h0, 'message': (se or so).strip().split('\n')[-1][:160]}
+    cli_hows = ['explicit-dir', 'symlinked-name'] + (['default-dir', 'hardlinked-name'] if thorough else
+                                                      [rng.choice(['default-dir', 'hardlinked-name'])])
+    jobs = [lambda: U1.call_child(work, 'u1_util:child_protected',
+                                  dict(base=os.path.join(work, 'prot_plain'), hows=hows, source=small, full=False),
+                                  optimize=False, tag='prot'),
+            lambda: U1.call_child(work, 'u1_util:child_protected',
+                                  dict(base=os.path.join(work, 'prot_O'), hows=hows, source=small, full=False),
+                                  optimize=True, tag='prot'),
+            lambda: U1.call_child(work, 'u1_util:child_protected',
+                                  dict(base=os.path.join(work, 'protfull_plain'), hows=full_hows, source=src_epw, full=True),
+                                  optimize=False, tag='protfull'),
+            lambda: U1.call_child(work, 'u1_util:child_protected',
+                                  dict(base=os.path.join(work, 'protfull_O'), hows=full_hows, source=src_epw, full=True),
+                                  optimize=True, tag='protfull')]
+    for how in cli_hows:
+        jobs.append(lambda how=how: [cli_case(how, False)])
+        jobs.append(lambda how=how: [cli_case(how, True)])
+    res = U1.parallel(jobs, workers=8)
+    np_, bp, pb = 0, 0, {}
+    for k in range(0, len(res), 2):
+        pl, op = res[k], res[k + 1]
+        kind = ('synthetic one-hour state' if k == 0 else 'after a real generate + simulate' if k == 2 else 'command line')
+        if isinstance(pl, dict) or isinstance(op, dict):      # an interpreter died inside the package
+            bp += 1
+            chk.violation('impl-violation', 'rural-file protection: a fresh interpreter fails', case={'kind': kind},
+                          observed=(pl if isinstance(pl, dict) else op).get('child_error', '')[-400:],
+                          expected='the refusal of the plain interpreter')
+            continue
+        for a, b in zip(pl, op):
+            for mode, row in (('python', a), ('python -O', b)):
+                np_ += 1
+                pb['%s, %s' % (kind, mode)] = pb.get('%s, %s' % (kind, mode), 0) + 1
+                problem = None
+                if not row['rural_unchanged']:
+                    problem = 'the rural file was overwritten'
+                elif (a['raised'] is None) != (b['raised'] is None) and mode == 'python -O':
+                    problem = 'the verdict depends on the interpreter mode (python: %s; python -O: %s)' % (
+                        a['raised'] or 'completed', b['raised'] or 'completed')
+                if problem:
+                    bp += 1
+                    if bp <= 3:
+                        chk.violation('impl-violation', 'rural file protected whatever the interpreter mode and the route: '
+                                      'the output path names the rural file (%s)' % row['how'],
+                                      case={'how the output names the rural file': row['how'], 'interpreter': mode,
+                                            'state': kind,
+                                            'how': 'harness/u1_util.py child_protected / c01.circumstances cli_case'},
+                                      observed='%s (write_epw / the command: %s%s)' % (
+                                          problem, row['raised'] or 'returned normally',
+                                          ': ' + row.get('message', '') if row.get('message') else ''),
+                                      expected='rural bytes unchanged, the same refusal in both interpreter modes')
+    chk.direct('rural-file-protected(output path = rural path) x {python, python -O} x {library, command line}', np_, np_,
+               'the ten ways of naming the rural file as the output (same spelling, ./ and ../, symlinked directory, '
+               'symlinked / chained / relative-symlinked / hard-linked name, rural file given through a symlink) with a '
+               'synthetic one-hour state, %d of them after a real generate + simulate, each in a plain and in a `python -O` '
+               'interpreter (asserts stripped); and %s through `python [-O] -m uwg simulate param --new-epw-dir/--new-epw-'
+               'name`: the rural bytes are hashed before / after and must not change, and the verdict (refused / exit '
+               'status) must be the same in both interpreter modes' % (len(full_hows), ', '.join(cli_hows)),
+               mismatches=bp, branches=pb)
 
 
 # ----------------------------------------------------------------------------- run
@@ -683,6 +872,30 @@ def run(chk):
                'accented, CJK, astral, combining, no-break-space and BOM characters, written as UTF-8; the file '
                'written by the real write_epw is parsed as strict UTF-8 and judged by the T2/T3 oracle',
                mismatches=butf)
+    # free text with characters that only SOME line splitters take for line ends
+    nsep, bsep = 0, 0
+    for idx, sep in enumerate(SEPARATORS if big else rng.sample(SEPARATORS[:5], 3) + rng.sample(SEPARATORS[5:], 2)):
+        sy = make_separators(chk, rng, 7500 + idx, sep)
+        _, ans, out_path, written, _ = run_synth(UWG, sy)
+        nsep += 1
+        msg = ('write_epw raised (%s) on a well-formed file' % ans) if not ans.startswith('ok') else \
+            oracle_file(sy.path, out_path, sy.s, written, sy.p, sy.hash)
+        if msg:
+            bsep += 1
+            if bsep <= 2:
+                chk.violation('impl-violation', 'T2/T3 oracle on a rural file whose free text holds the character %r' % sep,
+                              case={'replay_kind': 'synthetic-write', 'rural_file_text': sy.text_lf,
+                                    'window_start_row': sy.s, 'hours': sy.n, 'precision': sy.p,
+                                    'values_canTemp_Tdp_canRHum_wind': [list(map(repr, w)) for w in sy.vals],
+                                    'default_output_name': sy.default_out, 'rural_name': sy.name},
+                              observed=msg, expected='only fields 6,7,8,21 of the window rows differ')
+    chk.direct('T2/T3-oracle(write_epw, free text with vertical tab / form feed / FS GS RS / NEL / U+2028 / U+2029)', nsep, nsep,
+               'rural files whose unmodelled text holds a character that a csv reader fed by a text file treats as ordinary '
+               'content but str.splitlines() and similar idioms take for a line end: in an unquoted COMMENTS cell, inside the '
+               'quoted city name, in a trailing header cell, in the data-source flag cell of the first / last / a random row '
+               'and of the last window row (quick: 5 of the 8 characters, thorough: all); the file written by the real '
+               'write_epw must have the same lines, cells per row and cells outside the four columns (strict UTF-8 parse)',
+               mismatches=bsep)
     chk.correspond('read_csv~parseFile', 'C01', pf,
                    rule='the real utilities.read_csv on a synthetic rural EPW (random optional quoting of cells, '
                         'cells with commas/quotes/blanks, LF or CRLF, with/without final newline) vs Lean '
@@ -803,6 +1016,9 @@ def run(chk):
                'name, the rural file given through a symlink: rural bytes must be unchanged (the repaired code '
                'raises)', mismatches=bprot, branches=hows)
 
+    # ---------------------------------------------------------------- (x) circumstances that must not matter
+    circumstances(chk)
+
     # ---------------------------------------------------------------- (m) composition A: the whole pipeline
     morph.run_morph(chk)
     pipeline.run_pipeline(chk)      # (p) composition D: the same pipeline with the concrete readers and physics
@@ -868,6 +1084,11 @@ def replay(chk, path):
         cfg = (case['epw_path'], case['uwg_path'], case['month'], case['day'], case['nday'], case['dtsim'],
                case['precision'])
         msg = run_e2e(chk, UWG, 0, cfg)[2]
+    elif 'circumstance' in case or 'interpreter' in case:
+        # the circumstance families are re-explored (same generators, same seed)
+        circumstances(chk)
+        if chk.violations:
+            msg = '%s: %s' % (chk.violations[0]['theorem_or_tie'], chk.violations[0]['observed'])
     else:
         print('replay: %s records no concrete failing input (%s)' % (path, rec.get('theorem_or_tie')))
         return 2
